@@ -13,18 +13,18 @@ def supported (q : MetricQuery) : Bool :=
   (match q.rangeAgg.kind with | .lra _ => true | .unwrap _ _ => false) &&
   (match q.agg? with
    | none => true
-   | some a => (chosenGrouping a.byPrefix a.bySuffix).isSome && a.fn != .stddev && a.fn != .stdvar) &&
+   | some a => (chosenGrouping a.byPrefix a.bySuffix).isSome) &&
   decide (q.rangeAgg.durNs % 1000000 = 0) && decide (0 < q.rangeAgg.durNs) && decide (q.rangeAgg.sel.matchers.length ≤ 63)
 
 /-- the unwrapped range aggregations the plan-level theorem `plan_metric_correct_unwrap` covers: rate / sum / avg / min /
     max / first / last_over_time over `| unwrap <label>` (with or without grouping clause), same side conditions -/
 def supportedU (q : MetricQuery) : Bool :=
   (match q.rangeAgg.kind with
-   | .unwrap fn _ => fn != UnwrapFn.stdvarOT && fn != UnwrapFn.stddevOT
+   | .unwrap _ _ => true
    | .lra _ => false) &&
   (match q.agg? with
    | none => true
-   | some a => (chosenGrouping a.byPrefix a.bySuffix).isSome && a.fn != .stddev && a.fn != .stdvar) &&
+   | some a => (chosenGrouping a.byPrefix a.bySuffix).isSome) &&
   decide (q.rangeAgg.durNs % 1000000 = 0) && decide (0 < q.rangeAgg.durNs) && decide (q.rangeAgg.sel.matchers.length ≤ 63)
 
 /-- the database with the `samples` table read in timestamp order (ascending when the request is forward): the plan of
@@ -71,8 +71,7 @@ def planClass (o : Oracles) (c : MCtx) (d : LokiDb) (q : MetricQuery) : String :
       | .lra _ =>
         match q.agg? with
         | some a =>
-          if (chosenGrouping a.byPrefix a.bySuffix).isNone then "agg-without-grouping"
-          else if a.fn == AggFn.stddev || a.fn == AggFn.stdvar then "stddev-stdvar" else "other"
+          if (chosenGrouping a.byPrefix a.bySuffix).isNone then "agg-without-grouping" else "other"
         | none => "other"
     s!"searched:{why}:{shapeName q}"
 
